@@ -119,9 +119,27 @@ def _axioms():
 
 # --- children of a sequence error -------------------------------------------------
 def seq_children(c, ch, vm, data, upto):
-    """dict `ch` is { j : err(vm, data[j]) | 0 <= j < upto, not acc(vm, data[j]) }"""
+    """dict `ch` is { j : err(vm, data[j]) | 0 <= j < upto, not acc(vm, data[j]) }
+    (vm is a method, or a function index -> method for tuples)"""
     k = z3.Const("k", Val)
     j = z3.Int("j")
+    if callable(vm):
+        at = vm
+        return z3.And(
+            T.forall(
+                [k],
+                c.dhas(ch, k) == z3.And(cls(k) == K("int"), T.ival(k) >= 0, T.ival(k) < upto, z3.Not(T.acc(at(T.ival(k)), c.lget0(data, T.ival(k))))),
+                patterns=[c.dhas(ch, k)],
+            ),
+            T.forall(
+                [j],
+                z3.Implies(
+                    z3.And(j >= 0, j < upto, z3.Not(T.acc(at(j), c.lget0(data, j)))),
+                    z3.And(c.dhas(ch, T.mkint(j)), c.dget(ch, T.mkint(j)) == T.err(at(j), c.lget0(data, j))),
+                ),
+                patterns=[c.lget0(data, j)],
+            ),
+        )
     return z3.And(
         T.forall(
             [k],
@@ -141,9 +159,24 @@ def seq_children(c, ch, vm, data, upto):
 
 def all_acc_upto(c, vm, data, upto):
     j = z3.Int("j")
+    if callable(vm):
+        return T.forall([j], z3.Implies(z3.And(j >= 0, j < upto), T.acc(vm(j), c.lget0(data, j))), patterns=[c.lget0(data, j)])
     return T.forall([j], z3.Implies(z3.And(j >= 0, j < upto), T.acc(vm, c.lget0(data, j))), patterns=[T.acc(vm, c.lget0(data, j))])
 
 
 def some_rejected_upto(c, vm, data, upto):
     j = z3.Int("jw")
+    if callable(vm):
+        return z3.Exists([j], z3.And(j >= 0, j < upto, z3.Not(T.acc(vm(j), c.lget0(data, j)))))
     return z3.Exists([j], z3.And(j >= 0, j < upto, z3.Not(T.acc(vm, c.lget0(data, j)))))
+
+
+def is_json_like(d):
+    """the statement's domain: values of the seven JSON classes exactly"""
+    return z3.Or(*[cls(d) == K(n) for n in JSON_CLASSES])
+
+
+def is_message_error(c, e, msg):
+    """`e` is ValidationError(msg) for a single message"""
+    m, ch = c.attr(e, "messages"), c.attr(e, "children")
+    return z3.And(cls(e) == K("ValidationError"), isinst(m, "list"), c.llen(m) == 1, c.lget(m, 0) == msg, isinst(ch, "dict"), c.dlen(ch) == 0, empty_dict(c, ch))
